@@ -49,6 +49,17 @@ def extract():
     if not isinstance(methods, ast.Dict) or not all(isinstance(v, ast.Name) for v in methods.values):
         raise TranslatorError("minimizer.INTER_METHODS is not a dict of function names")
     tab["interMethods"] = [(lit(k), v.id) for k, v in zip(methods.keys, methods.values)]
+    # which entry of WEIGHTS each penalty function multiplies with (compute_bond serves bonds AND constraints)
+    weight_key = []
+    for fname in sorted({v.id for v in methods.values}):
+        keys = []
+        for node in ast.walk(find_func(mini, fname)):
+            if isinstance(node, ast.Subscript) and isinstance(node.value, ast.Name) and node.value.id == "WEIGHTS":
+                keys.append(lit(node.slice))
+        if len(set(keys)) != 1 or not isinstance(keys[0], str):
+            raise TranslatorError("%s does not use exactly one literal WEIGHTS[...] entry" % fname)
+        weight_key.append((fname, keys[0]))
+    tab["penaltyWeightKey"] = weight_key
 
     vsb = src("virtual_site_builder.py")
     table = module_assign(vsb, "VIRTUAL_SITES")
@@ -100,6 +111,10 @@ def emit(tab):
     lines.append("/-- minimizer.INTER_METHODS: interaction type -> penalty function -/")
     lines.append("def interMethods : List (String × String) :=")
     lines.append("  [" + ", ".join("(%s, %s)" % (lstr(k), lstr(v)) for k, v in tab["interMethods"]) + "]")
+    lines.append("")
+    lines.append("/-- the WEIGHTS entry each penalty function multiplies with -/")
+    lines.append("def penaltyWeightKey : List (String × String) :=")
+    lines.append("  [" + ", ".join("(%s, %s)" % (lstr(k), lstr(v)) for k, v in tab["penaltyWeightKey"]) + "]")
     lines.append("")
     lines.append("/-- virtual_site_builder.VIRTUAL_SITES: (section, function type) -> constructor function -/")
     lines.append("def vsTable : List ((String × String) × String) :=")
